@@ -26,5 +26,5 @@ VERIF_REPO=$WT ./check $ID > /tmp/seedchk-$ID.check.log 2>&1; echo "check rc=$?"
 ls $SV/replay 2>/dev/null | head -3
 cp $SV/replay/*.json /tmp/seedchk-$ID.replay.json 2>/dev/null
 cd /verif
-git -C /repo worktree remove --force $WT; git -C /repo branch -D seedchk-$ID -q
-git -C /verif worktree remove --force $SV; git -C /verif branch -D seed-$ID -q
+git -C /repo worktree remove --force $WT; git -C /repo branch -q -D seedchk-$ID
+git -C /verif worktree remove --force $SV; git -C /verif branch -q -D seed-$ID
